@@ -200,6 +200,7 @@ Inductive act :=
 | AFixture (fx : fixture)                    (* self.useFixture(fx) *)
 | AOnExc (h : nat)                           (* self.addOnException(handler number h) *)
 | AForce                                     (* self.force_failure = True *)
+| AInsertHandler (c : cls) (o : outcome)     (* self.exception_handlers.insert(0, (c, handler reporting o)) *)
 | AExpectFailure (r : nat) (p : option exc)  (* self.expectFailure(reason r, predicate); predicate returns / raises p *)
 | ARaise (e : exc).
 
@@ -209,10 +210,12 @@ Record prog := {
   p_setup : nat * list act;    p_up_setup : bool;       (* token, body; does it upcall TestCase.setUp *)
   p_body : nat * list act;
   p_teardown : nat * list act; p_up_teardown : bool;
-  p_handlers : list (cls * outcome);   (* inserted at the front of exception_handlers, in this order *)
+  p_handlers : list (cls * outcome);   (* put at the front of exception_handlers before run(), in this order *)
 }.
 
-Definition handlers (p : prog) : list handler := map user_handler (p_handlers p) ++ generated_handlers.
+(* RunTest.handlers is the list object TestCase.exception_handlers: whatever the test has put
+   in front of it by the time the outcome is chosen counts *)
+Definition handlers_of (u : list (cls * outcome)) : list handler := map user_handler u ++ generated_handlers.
 
 (* ------------------------------------------------------------------ *)
 (* state                                                                *)
@@ -244,28 +247,21 @@ Record st := {
   attrs : list (nat * nat);     (* vars(scratch) *)
   onexc : list nat;             (* TestCase.__exception_handlers; not reset between runs *)
   force : bool;                 (* TestCase.force_failure; not reset between runs *)
+  uh : list (cls * outcome);    (* what the user put in front of TestCase.exception_handlers, first first;
+                                   the list object is shared with RunTest and not reset between runs *)
   tr : list tev }.
 
-Definition set_log v s := {| log := v; excs := excs s; stack := stack s; dets := dets s; tbgen := tbgen s;
-  cells := cells s; attrs := attrs s; onexc := onexc s; force := force s; tr := tr s |}.
-Definition set_excs v s := {| log := log s; excs := v; stack := stack s; dets := dets s; tbgen := tbgen s;
-  cells := cells s; attrs := attrs s; onexc := onexc s; force := force s; tr := tr s |}.
-Definition set_stack v s := {| log := log s; excs := excs s; stack := v; dets := dets s; tbgen := tbgen s;
-  cells := cells s; attrs := attrs s; onexc := onexc s; force := force s; tr := tr s |}.
-Definition set_dets v s := {| log := log s; excs := excs s; stack := stack s; dets := v; tbgen := tbgen s;
-  cells := cells s; attrs := attrs s; onexc := onexc s; force := force s; tr := tr s |}.
-Definition set_tbgen v s := {| log := log s; excs := excs s; stack := stack s; dets := dets s; tbgen := v;
-  cells := cells s; attrs := attrs s; onexc := onexc s; force := force s; tr := tr s |}.
-Definition set_cells v s := {| log := log s; excs := excs s; stack := stack s; dets := dets s; tbgen := tbgen s;
-  cells := v; attrs := attrs s; onexc := onexc s; force := force s; tr := tr s |}.
-Definition set_attrs v s := {| log := log s; excs := excs s; stack := stack s; dets := dets s; tbgen := tbgen s;
-  cells := cells s; attrs := v; onexc := onexc s; force := force s; tr := tr s |}.
-Definition set_onexc v s := {| log := log s; excs := excs s; stack := stack s; dets := dets s; tbgen := tbgen s;
-  cells := cells s; attrs := attrs s; onexc := v; force := force s; tr := tr s |}.
-Definition set_force v s := {| log := log s; excs := excs s; stack := stack s; dets := dets s; tbgen := tbgen s;
-  cells := cells s; attrs := attrs s; onexc := onexc s; force := v; tr := tr s |}.
-Definition set_tr v s := {| log := log s; excs := excs s; stack := stack s; dets := dets s; tbgen := tbgen s;
-  cells := cells s; attrs := attrs s; onexc := onexc s; force := force s; tr := v |}.
+Definition set_log v s := {| log := v; excs := excs s; stack := stack s; dets := dets s; tbgen := tbgen s; cells := cells s; attrs := attrs s; onexc := onexc s; force := force s; uh := uh s; tr := tr s |}.
+Definition set_excs v s := {| log := log s; excs := v; stack := stack s; dets := dets s; tbgen := tbgen s; cells := cells s; attrs := attrs s; onexc := onexc s; force := force s; uh := uh s; tr := tr s |}.
+Definition set_stack v s := {| log := log s; excs := excs s; stack := v; dets := dets s; tbgen := tbgen s; cells := cells s; attrs := attrs s; onexc := onexc s; force := force s; uh := uh s; tr := tr s |}.
+Definition set_dets v s := {| log := log s; excs := excs s; stack := stack s; dets := v; tbgen := tbgen s; cells := cells s; attrs := attrs s; onexc := onexc s; force := force s; uh := uh s; tr := tr s |}.
+Definition set_tbgen v s := {| log := log s; excs := excs s; stack := stack s; dets := dets s; tbgen := v; cells := cells s; attrs := attrs s; onexc := onexc s; force := force s; uh := uh s; tr := tr s |}.
+Definition set_cells v s := {| log := log s; excs := excs s; stack := stack s; dets := dets s; tbgen := tbgen s; cells := v; attrs := attrs s; onexc := onexc s; force := force s; uh := uh s; tr := tr s |}.
+Definition set_attrs v s := {| log := log s; excs := excs s; stack := stack s; dets := dets s; tbgen := tbgen s; cells := cells s; attrs := v; onexc := onexc s; force := force s; uh := uh s; tr := tr s |}.
+Definition set_onexc v s := {| log := log s; excs := excs s; stack := stack s; dets := dets s; tbgen := tbgen s; cells := cells s; attrs := attrs s; onexc := v; force := force s; uh := uh s; tr := tr s |}.
+Definition set_force v s := {| log := log s; excs := excs s; stack := stack s; dets := dets s; tbgen := tbgen s; cells := cells s; attrs := attrs s; onexc := onexc s; force := v; uh := uh s; tr := tr s |}.
+Definition set_uh v s := {| log := log s; excs := excs s; stack := stack s; dets := dets s; tbgen := tbgen s; cells := cells s; attrs := attrs s; onexc := onexc s; force := force s; uh := v; tr := tr s |}.
+Definition set_tr v s := {| log := log s; excs := excs s; stack := stack s; dets := dets s; tbgen := tbgen s; cells := cells s; attrs := attrs s; onexc := onexc s; force := force s; uh := uh s; tr := v |}.
 
 Definition add_log (l : list lev) s := set_log (log s ++ l) s.
 Definition add_tr (l : list tev) s := set_tr (tr s ++ l) s.
@@ -314,9 +310,19 @@ Definition got_exception (e : exc) (s : st) : st :=
 (* ------------------------------------------------------------------ *)
 (* user code                                                            *)
 (* ------------------------------------------------------------------ *)
+(* a dict of details written as the sequence of its assignments (a mismatch's get_details(), a
+   fixture's addDetail calls): a later assignment to the same name replaces the earlier *)
+Fixpoint nl_put (n : dname) (loc : nat) (l : list (dname * nat)) : list (dname * nat) :=
+  match l with
+  | [] => [(n, loc)]
+  | (m, x) :: r => if dname_eqb n m then (m, loc) :: r else (m, x) :: nl_put n loc r
+  end.
+Definition nl_dict (l : list (dname * nat)) : list (dname * nat) :=
+  fold_left (fun d nl => nl_put (fst nl) (snd nl) d) l [].
+
 (* _matchHelper: every detail of the mismatch under a unique name *)
 Definition add_mismatch (mm : list (dname * nat)) (s : st) : st :=
-  fold_left (fun s nl => add_detail_unique (fst nl) (CLazy (snd nl)) s) mm s.
+  fold_left (fun s nl => add_detail_unique (fst nl) (CLazy (snd nl)) s) (nl_dict mm) s.
 
 (* CallMany.__call__: the functions run latest first, every one of them; Exception-derived
    errors are collected *)
@@ -325,7 +331,7 @@ Definition run_fx_cleanups (cs : list (nat * option exc)) (s : st) : st * list e
                           match snd c with Some e => snd se ++ [e] | None => snd se end))
             (rev cs) (s, []).
 Definition fx_source (fx : fixture) : details :=
-  fold_left (fun d nl => dput (fst nl) (CLazy (snd nl)) d) (fx_details fx) [].
+  map (fun nl => (fst nl, CLazy (snd nl))) (nl_dict (fx_details fx)).
 
 (* useFixture, testcase.py:721-758, over fixtures.Fixture.setUp / cleanUp *)
 Definition use_fixture (fx : fixture) (s : st) : st * option exc :=
@@ -368,6 +374,7 @@ Definition exec_act (a : act) (s : st) : st * option exc :=
   | AFixture fx => use_fixture fx s
   | AOnExc h => (set_onexc (onexc s ++ [h]) s, None)
   | AForce => (set_force true s, None)
+  | AInsertHandler c o => (set_uh ((c, o) :: uh s) s, None)
   | AExpectFailure r p =>
       (* expectFailure, testcase.py:534-567 *)
       let s1 := add_detail n_reason (CReason (Some r)) s in
@@ -471,9 +478,9 @@ Definition run_prepared (p : prog) (fuel : nat) (s : st) : st * option exc * boo
   let s0 := set_excs [] (add_tr [TStart] s) in
   let '(s1, oof) := run_core p fuel s0 in
   let '(s2, propagated) :=
-    match choose (handlers p) (excs s1) with
+    match choose (handlers_of (uh s1)) (excs s1) with
     | None => (s1, None)
-    | Some e => match lookup (handlers p) e with
+    | Some e => match lookup (handlers_of (uh s1)) e with
                 | Some h => (call_handler h e s1, None)
                 | None => (match last_resort with
                            | Some o => add_tr [TOut o (current_details s1)] s1
@@ -499,14 +506,15 @@ Definition acts_size (l : list act) : nat := fold_right (fun a n => act_size a +
 Definition prog_size (p : prog) : nat :=
   acts_size (snd (p_setup p)) + acts_size (snd (p_body p)) + acts_size (snd (p_teardown p)).
 
-Definition init (attrs0 : list (nat * nat)) : st :=
+(* a fresh instance: p_handlers are inserted right after construction *)
+Definition init (p : prog) (attrs0 : list (nat * nat)) : st :=
   {| log := []; excs := []; stack := []; dets := []; tbgen := 0; cells := []; attrs := attrs0;
-     onexc := []; force := false; tr := [] |}.
+     onexc := []; force := false; uh := p_handlers p; tr := [] |}.
 
 (* TestCase.run(result) on an instance in state s *)
 Definition run_from (p : prog) (s : st) : st * option exc * bool :=
   run_prepared p (S (prog_size p)) (reset s).
-Definition run (p : prog) (attrs0 : list (nat * nat)) : st * option exc * bool := run_from p (init attrs0).
+Definition run (p : prog) (attrs0 : list (nat * nat)) : st * option exc * bool := run_from p (init p attrs0).
 
 (* ------------------------------------------------------------------ *)
 (* delivery to the result flavours (testresult/real.py ExtendedToOriginalDecorator,
